@@ -1,8 +1,6 @@
 package main
 
 import (
-	"runtime/pprof"
-	"time"
 	"encoding/json"
 	"fmt"
 	"math"
@@ -18,70 +16,8 @@ import (
 	"verif/engine/runner"
 )
 
+// probe (VERIF_C14_PROBE=<script>) runs one script and dumps a few top-level variables: a development aid.
 func probe(file string) {
-	if strings.HasPrefix(file, "pwprof") {
-		f, _ := os.Create("/tmp/c14.prof")
-		pprof.StartCPUProfile(f)
-		run := &pwRun{fs: &failSet{}, outcomes: map[string]int64{}, cache: pwCache}
-		t0 := time.Now()
-		for _, first := range []byte{0x0b, 0x0c, 0x08, 0x13, 0x41} {
-			b := []byte{first, 0, 0}
-			for x := 0; x < 256; x++ {
-				for y := 0; y < 256; y++ {
-					b[1], b[2] = byte(x), byte(y)
-					run.one(b, relevantCombos(b))
-				}
-			}
-			fmt.Println("prefix", first, time.Since(t0), run.n, run.calls, len(run.cache))
-		}
-		pprof.StopCPUProfile()
-		f.Close()
-		return
-	}
-	if file == "pwtime" {
-		run := &pwRun{fs: &failSet{}, outcomes: map[string]int64{}, cache: pwCache}
-		t0 := time.Now()
-		b := []byte{0x0a, 0, 0}
-		for x := 0; x < 256; x++ {
-			for y := 0; y < 256; y++ {
-				b[1], b[2] = byte(x), byte(y)
-				run.one(b, relevantCombos(b))
-			}
-		}
-		fmt.Println("prefix 0a:", time.Since(t0), run.n, run.calls, run.outcomes)
-		t0 = time.Now()
-		b = []byte{0x41, 0, 0}
-		run = &pwRun{fs: &failSet{}, outcomes: map[string]int64{}, cache: pwCache}
-		for x := 0; x < 256; x++ {
-			for y := 0; y < 256; y++ {
-				b[1], b[2] = byte(x), byte(y)
-				run.one(b, relevantCombos(b))
-			}
-		}
-		fmt.Println("prefix 41:", time.Since(t0), run.n, run.calls, run.outcomes)
-		return
-	}
-	if file == "dbg" {
-		e := getEnv()
-		s := `{"":{"":0,"b":0}}`
-		ref, _ := jsonRef(s)
-		t := pToT(ref)
-		fmt.Println(ref, t.class(), jsonText(t.canon()))
-		fmt.Println(jsonDecFailures(e, s))
-		fmt.Println(jsonDecFailures(e, jsonText(t.canon())))
-		return
-	}
-	if file == "leaves" {
-		e := getEnv()
-		for i, t := range fullLeaves() {
-			t0 := time.Now()
-			f := treeFailures(e, t)
-			if d := time.Since(t0); d > 50*time.Millisecond || len(f) > 0 {
-				fmt.Println(i, t.canon(), d, f)
-			}
-		}
-		return
-	}
 	src, _ := os.ReadFile(file)
 	res, s := runner.RunKeep(string(src), runner.Opts{})
 	fmt.Printf("kind=%s class=%s msg=%s panic=%s\nout=%s\n", res.Kind, res.Class, res.Msg, res.PanicKey, res.Out)
